@@ -6,7 +6,7 @@
   var_set1_ext / var_init_ext / var_reset / var_accumulate   the whole bodies: every field they write (dirty, count, sum_values,
         sum_squares, min, max, variable, variable_owned, group, prio; sc_strdup / sc_free as call effects)
   var_set1_copy / _group / _prio, var_init_copy / _group / _prio   the arguments with which sc_stats_set1 / sc_stats_init call the _ext versions
-  var_compute1_prep          the loop body of sc_stats_compute1 (count, sum_squares, min, max from sum_values; dirty is NOT consulted)
+  var_compute1_prep          the loop body of sc_stats_compute1 (a clean variable is skipped - repair F-C13a -, else count, sum_squares, min, max from sum_values)
   var_compute_pack           the body of the packing loop of sc_stats_compute for one variable: memset (address, value, bytes) for a
                              clean variable, else the seven slots flatin[7 * i + 0 .. 6]
   var_compute_post           the body of the post-processing loop for one variable: all 13 numeric fields of the variable from the
@@ -289,7 +289,7 @@ def register_var(GROUPS, c2g, incs, REPO, HERE, STRUCTS, Group):
             if not is_var(sl.strip(rest[0])["inner"][1 + k_], nm):
                 raise c2g.Unsupported("sc_stats_compute1 does not pass %s on" % nm)
         st = prep(loop["inner"][-1], "sc_stats_compute1")["inner"]
-        t, i = block(st, "var_compute1_prep", S, "sc_stats_compute1", params=tuple(S), want_params=S)
+        t, i = block(st, "var_compute1_prep", S, "sc_stats_compute1", params=tuple(S), want_params=S, jumps_end=True)
         g.add(t, i)
 
         # ---- sc_stats_compute
